@@ -5,7 +5,7 @@ Confirm a seeded change (patch.diff + demo.py + meta.json) in a scratch worktree
   3. run ./check PROP against the patched worktree (XDSL_REPO) and record whether it raises VIOLATION.
 Then store it as /verif/seeded/<name>/ with the outcome in meta.json.  /repo itself is never touched."""
 import json, os, shutil, subprocess, sys, time
-src, prop, name = sys.argv[1], sys.argv[2], sys.argv[3]
+src, prop, name = os.path.abspath(sys.argv[1]), sys.argv[2], sys.argv[3]
 tier = "quick"
 WT = "/tmp/seedeval_repo"
 V = "/verif"
@@ -42,7 +42,8 @@ for l in res["violation_lines"][:4]:
 sh(f"git -C {WT} checkout -- . && git -C {WT} clean -fdq")
 dst = os.path.join(V, "seeded", name); os.makedirs(dst, exist_ok=True)
 for f in ("patch.diff", "demo.py"):
-    shutil.copy2(os.path.join(src, f), dst)
+    if os.path.abspath(os.path.join(src, f)) != os.path.abspath(os.path.join(dst, f)):
+        shutil.copy2(os.path.join(src, f), dst)
 meta = json.load(open(os.path.join(src, "meta.json"))) if os.path.exists(os.path.join(src, "meta.json")) else {}
 meta.update({"property": prop, "confirmed": res, "ran": [f"demo.py on /repo and on patched worktree", "tools/baseline.py on patched worktree", f"./check {prop} --tier {tier} with XDSL_REPO=patched worktree"]})
 json.dump(meta, open(os.path.join(dst, "meta.json"), "w"), indent=1)
